@@ -299,6 +299,12 @@ def seq_items(eng, v, st):
     return None
 
 
+class EnumV:
+    """enumerate(seq) over a sequence of symbolic length"""
+    def __init__(self, seq):
+        self.seq = seq
+
+
 class RangeV:
     def __init__(self, lo, hi):
         self.lo, self.hi = lo, hi
@@ -370,7 +376,10 @@ def builtin(eng, name, args, kwargs, st):
     elif name == 'enumerate':
         items = seq_items(eng, args[0], st)
         if items is None:
-            raise OutOfSubset('enumerate over symbolic-length sequence')
+            if len(args) != 1 or kwargs:
+                raise OutOfSubset('enumerate(seq, start) over symbolic-length sequence')
+            yield EnumV(args[0]), st          # only usable as the iterable of a for loop (cut with an invariant)
+            return
         yield tuple((i, x) for i, x in enumerate(items)), st
     elif name == 'zip':
         seqs = [seq_items(eng, a, st) for a in args]
@@ -904,6 +913,18 @@ def _opaque_bounds(I):
 NATIVE_UF['valid_iv'] = lambda I: all(len(r) == 2 and r[0] >= 0 and r[1] >= 0 and r[0] < r[1] for r in I)
 NATIVE_UF['n_bounds'] = lambda I: len(_opaque_bounds(I))
 NATIVE_UF['bound'] = lambda I, k: _opaque_bounds(I)[int(k)] if 0 <= int(k) < len(_opaque_bounds(I)) else 0.0
+def _pattern_estab(p, q, metric='cardinality_score'):
+    best = 0.0
+    for op in p:
+        for oq in q:
+            inter = len(set(tuple(e) for e in op) & set(tuple(e) for e in oq))
+            best = max(best, inter / float(max(len(op), len(oq))) if max(len(op), len(oq)) else 0.0)
+    return best
+
+
+# opaque patterns (contracts/pattern.py): tuples of occurrences, each a tuple of (onset, midi) pairs
+NATIVE_UF['valid_pattern'] = lambda p: len(p) > 0 and all(all(len(e) == 2 for e in occ) for occ in p)
+NATIVE_UF['estab'] = _pattern_estab
 NATIVE_UF['rnd4'] = lambda x: round(float(x), 4)
 NATIVE_UF['log2'] = lambda x: _math.log2(float(x)) if float(x) > 0 else 0.0
 
@@ -1056,8 +1077,13 @@ def spec_rows_extremum(op):
         n, m, lam = args
 
         def cell(i, j):
-            for v, _ in call_lambda(eng, lam, [i, j], st):
-                return v
+            saved_mode = eng.spec_mode
+            eng.spec_mode = True        # a cell of a spec term is a formula wherever it is evaluated (also from later cross-instances)
+            try:
+                for v, _ in call_lambda(eng, lam, [i, j], st):
+                    return v
+            finally:
+                eng.spec_mode = saved_mode
         if not is_z3(n) and not is_z3(m):
             # concrete evaluation (native replay)
             rows = []
@@ -1106,6 +1132,18 @@ def spec_floor(eng, args, kwargs, st):
     yield to_real(floor_(args[0])), st
 
 
+def spec_axiom(eng, args, kwargs, st):
+    """axiom(cond, note='...'): a stated property of an uninterpreted symbol of the sidecar (e.g. the range of a similarity score that an
+    assumed contract defines).  Assumed wherever the contract is used and listed as a trusted fact in the evidence."""
+    if eng.concrete:
+        yield None, st
+        return
+    cond = to_z3(to_bool(args[0]))
+    eng.trusted_facts.add('axiom of %s: %s' % (eng.qual, kwargs.get('note', 'stated property of an uninterpreted symbol')))
+    define_fact(eng, st, cond)
+    yield None, st
+
+
 def spec_assert_step(eng, args, kwargs, st):
     """assert_step(cond): an intermediate fact, proved as its own obligation and then available to the clauses that follow"""
     if eng.concrete:
@@ -1113,8 +1151,13 @@ def spec_assert_step(eng, args, kwargs, st):
         return
     cond = to_z3(to_bool(args[0]))
     label = kwargs.get('label', 'step')
-    if eng.lemma_mode:
-        eng.oblige('lemma', label, st, cond)
+    if eng.lemma_mode or getattr(eng, 'ghost_mode', False):
+        saved = eng.spec_mode
+        eng.spec_mode = False
+        try:
+            eng.oblige('lemma' if eng.lemma_mode else 'ghost', label, st, cond)      # proved here, then known on this path
+        finally:
+            eng.spec_mode = saved
     elif eng.clauses is not None:
         add_clause(eng, st, {'kind': 'hint', 'premise': cond, 'conclusion': cond, 'label': label, 'line': getattr(eng.cur_stmt, 'lineno', None)})
     yield None, st
@@ -1150,7 +1193,7 @@ SPEC = {
     'fmt': spec_fmt,
     'assert_step': spec_assert_step,
     'floor': spec_floor,
-    'sum_of': spec_sum, 'median_of': spec_median, 'row_min': spec_rows_extremum('min'), 'row_max': spec_rows_extremum('max'),
+    'sum_of': spec_sum, 'median_of': spec_median, 'axiom': spec_axiom, 'row_min': spec_rows_extremum('min'), 'row_max': spec_rows_extremum('max'),
     'sum_nonneg': _sum_fact('sum_nonneg'), 'sum_le': _sum_fact('sum_le'), 'sum_eq': _sum_fact('sum_eq'), 'sum_add': _sum_fact('sum_add'),
     'sum_scale': _sum_fact('sum_scale'), 'sum_zero': _sum_fact('sum_zero'), 'sum_ge_term': _sum_fact('sum_ge_term'), 'sum_telescope': _sum_fact('sum_telescope'), 'sum_const': _sum_fact('sum_const'),
     'mm': spec_mm,
